@@ -152,6 +152,16 @@ CLAIMED = {
             "Equality of compile-time and run-time VALUES for all expressions is not decided.",
             "Trusted: rustc nightly MIR and is_const_fn; runtime crate facts (features json,web).",
             "DESIGN.md §4 C06"),
+    "C17": ("control-dependence slice of the checked-construction rewrite, shape-filter rule on hook selection, "
+            "post-dominance of the context restore, who-may-write on the hook registry, nominal-typing table",
+            "Decides: the rewrite T(x) -> T::hook(x).expect(..) is guarded only by hook presence, argument shape and "
+            "the inside-impl exemption (never by the lowered type of T); hook candidates are filtered by shape before "
+            "they are counted and from_underlying is preferred; current_impl_type is restored on every exit; the hook "
+            "registry is fed only from the file being lowered (imported validated newtypes are constructed unchecked: "
+            "reproduced, listed); distinct nominal types are incompatible. Run-time rejection for all values is not "
+            "decided.",
+            "Trusted: rustc nightly MIR; the evaluator's model of string equality for the nominal table.",
+            "DESIGN.md §4 C17"),
 }
 
 NOT_APPLICABLE = {
